@@ -896,7 +896,8 @@ def check_c15(mon):
                     cls = 'nan' if x != x else 'out-of-range'
                     l_, h_ = num(hp[lo]), num(hp[hi])
                     if x == x and l_ <= h_ and (0 < x - h_ <= 4 * math.ulp(h_) or 0 < l_ - x <= 4 * math.ulp(l_)):
-                        cls = 'rounding-outside-range'      # an end point of the range missed by a few ulps
+                        # an end point of the range missed by a few ulps; a degenerate range (lo == hi) is a different circumstance
+                        cls = 'rounding-outside-range' + (':degenerate-range' if l_ == h_ else '')
                     extra = ':bw_min=0' if (name == 'IHS' and num(hp['bw_min']) == 0) else ''
                     mon.v('C15', '%s.%s:%s%s' % (name, k, cls, extra), '%s=%r outside [%s=%r, %s=%r] (%s)' % (k, v, lo, hp[lo], hi, hp[hi], when), v, [hp[lo], hp[hi]])
             else:
